@@ -21,6 +21,7 @@ func batchBodies() [][]Op {
 		{d("a"), p("a", "S")},
 		{p("a", "S"), p("a", "S")},
 		{p("a", "L"), p("b", "L"), d("a")},
+		{p("a", "S"), p("a", "H"), p("b", "S"), p("b", "H")}, // restaging with larger values: the size estimate must grow
 	}
 }
 
